@@ -474,10 +474,17 @@ func genC10(t *rapid.T) *Bundle {
 		if rapid.Bool().Draw(t, "sel_valid_prefix") {
 			sel = rapid.SampledFrom([]string{"tags", "n", "grid", "t", "o"}).Draw(t, "selbase") + sel
 		}
-		if rapid.Bool().Draw(t, "sel_in_from") {
+		switch rapid.IntRange(0, 2).Draw(t, "sel_place") {
+		case 0:
 			op.Query = fmt.Sprintf("SELECT id FROM `%s`", sel)
-		} else {
+		case 1:
 			op.Query = fmt.Sprintf("SELECT id, `%s` AS c FROM t", sel)
+		default:
+			// the selector language has an entry point of its own: ExecReader(document, selector)
+			op.Query, op.Reader = "t"+sel, true
+			if rapid.Bool().Draw(t, "sel_reader_raw") {
+				op.Query = sel
+			}
 		}
 		for _, r := range doc["t"].([]any) {
 			m := r.(map[string]any)
@@ -624,6 +631,11 @@ func corpusC10() []*Bundle {
 				}
 			}
 		}
+	}
+	for _, sel := range []string{"t[5]", "t[0 0]", "t[(2:1)]", "t[(0:9)]", "[3]", "u[0,1]", "t[-1]", "t[(begin:9)]", "t[each][each]", "t.n[7].v", "t[0:9]", "t[1:0]", "", "[", "t[", "t{", "::", "t::[9]", "nosuch=>t", "keep=>t[9]"} {
+		c := oneClientCase("C10", casefmt.SimConfig{Strategy: "np", Seed: 2, MapPolicy: "sorted", StepBudget: 2000000}, doc,
+			casefmt.Op{Doc: 0, Vars: -1, Query: sel, Reader: true}, c10FollowUp(nil))
+		out = append(out, &Bundle{Prop: "C10", Kind: "named", Case: c, Expect: mustJSON(c10Expect{Kind: "named", Query: "ExecReader: " + sel}), Tags: []string{"corpus", "kind:named_reader"}})
 	}
 	for _, q := range c10NamedPostgres {
 		c := oneClientCase("C10", casefmt.SimConfig{Strategy: "np", Seed: 2, MapPolicy: "sorted", StepBudget: 2000000}, doc,
